@@ -8,6 +8,7 @@ package main
 // its k-th durable write.
 
 import (
+	"strconv"
 	"strings"
 	"encoding/json"
 	"flag"
@@ -153,6 +154,15 @@ func runNodeMode(args []string) error {
 		info := node.Application.Info()
 		fmt.Printf("NODE-RECOVERED store=%d state=%d app=%d\n", node.Angine.Height(), sh, info.LastBlockHeight)
 		fmt.Printf("NODE-LISTEN 127.0.0.1:%d\n", node.Angine.P2PPort())
+	}
+	if ms, _ := strconv.Atoi(os.Getenv("VERIF_FASTSYNC_PAUSE_MS")); ms > 0 {
+		// widen the gap between the commit check of a block and its removal from the pool
+		if bcR := node.Angine.VerifBlockchainReactor(); bcR != nil {
+			bcR.VerifAfterVerify(func(h int64) {
+				fmt.Printf("NODE-VERIFIED %d\n", h)
+				time.Sleep(time.Duration(ms) * time.Millisecond)
+			})
+		}
 	}
 	if err := node.Start(); err != nil {
 		rep.Error = "start: " + err.Error()
